@@ -157,14 +157,38 @@ def branch_key(b):
         return branch_key(t)
     return t
 
+def default_fits_first_branch(t, d):
+    first = t[0] if t else None
+    k = branch_key(first) if first is not None else None
+    if k == 'null':
+        return d is None
+    if k == 'boolean':
+        return isinstance(d, bool)
+    if k in ('int', 'long'):
+        return isinstance(d, int) and not isinstance(d, bool)
+    if k in ('float', 'double'):
+        return isinstance(d, (int, float)) and not isinstance(d, bool)
+    if k in ('string', 'bytes'):
+        return isinstance(d, str)
+    if k == 'array':
+        return isinstance(d, list)
+    if k == 'map':
+        return isinstance(d, dict)
+    return d is not None
+
 def unions_ok(js):
     """every union in the schema is well formed by the specification (the generator's own unions are; an evolution
-    step such as string -> bytes next to a bytes-backed logical type can break it)"""
+    step such as string -> bytes next to a bytes-backed logical type, or reordering the branches of a defaulted
+    field, can break it): no nested union, no two branches of the same type, a default matches the first branch"""
     for _, node in positions(js):
         if isinstance(node, list):
             keys = [branch_key(b) for b in node]
             if 'union' in keys or len(set(keys)) != len(keys):
                 return False
+        if isinstance(node, dict) and node.get('type') == 'record':
+            for f in node['fields']:
+                if 'default' in f and isinstance(f['type'], list) and not default_fits_first_branch(f['type'], f['default']):
+                    return False
     return True
 
 # minimal witnesses of the known finding classes (the Coq refutation examples of Props/C08.v, C09.v), run first
@@ -187,6 +211,52 @@ CORPUS = [
      '(union 1 (string #6869))', 'string-to-bytes', 'safe'),
 ]
 
+def sibling_named_case(r):
+    kind = r.choice(['record', 'record', 'enum', 'fixed'])
+    nv = r.choice([2, 3])
+    branches, values = [], []
+    ftypes = [('long', lambda: '(long %d)' % r.choice([0, -1, 1 << 40])), ('string', lambda: '(string %s)' % hx(r.choice(['', 'hello']))),
+              ('double', lambda: '(double %d)' % r.choice([0, 4607182418800017408])), ('boolean', lambda: '(boolean %d)' % r.below(2))]
+    for j in range(nv):
+        if kind == 'record':
+            nf = r.choice([1, 2])
+            fs = [('v%d_%d' % (j, q), r.choice(ftypes)) for q in range(nf)]
+            branches.append({'type': 'record', 'name': 'N%d' % j, 'fields': [{'name': fn, 'type': ft[0]} for fn, ft in fs]})
+            values.append('(record%s)' % ''.join(' (kv %s %s)' % (hx(fn), ft[1]()) for fn, ft in fs))
+        elif kind == 'enum':
+            syms = ['S%d_%d' % (j, q) for q in range(r.choice([1, 2, 3]))]
+            branches.append({'type': 'enum', 'name': 'N%d' % j, 'symbols': syms})
+            q = r.below(len(syms))
+            values.append('(enum %d %s)' % (q, hx(syms[q])))
+        else:
+            branches.append({'type': 'fixed', 'name': 'N%d' % j, 'size': j + 1})
+            values.append('(fixed %d #%s)' % (j + 1, 'ab' * (j + 1)))
+    order = list(range(nv))
+    r.shuffle(order)
+    if order == list(range(nv)):
+        order = order[::-1]
+    rb = [branches[o] for o in order]
+    extra = r.choice([None, 'null', 'boolean'])
+    wb = list(branches)
+    if extra:
+        rb.insert(r.below(len(rb) + 1), extra)
+    if r.chance(1, 3):
+        wb.insert(r.below(len(wb) + 1), 'int')
+        rb.append('long')
+    vals = []
+    for j, b in enumerate(branches):
+        vals.append('(union %d %s)' % (wb.index(b), values[j]))
+    shape = r.below(3)
+    W, R = wb, rb
+    if shape == 1:
+        W, R = {'type': 'array', 'items': wb}, {'type': 'array', 'items': rb}
+        vals = ['(array %s)' % ' '.join(vals)]
+    elif shape == 2:
+        W = {'type': 'record', 'name': 'Outer', 'fields': [{'name': 'u', 'type': wb}]}
+        R = {'type': 'record', 'name': 'Outer', 'fields': [{'name': 'u', 'type': rb}]}
+        vals = ['(record (kv #75 %s))' % v for v in vals]
+    return json.dumps(W), json.dumps(R), vals, 'reorder-union-branches'
+
 def gen_triples(tier, seed):
     rng = Rng(seed)
     n = 260 if tier == 'quick' else 10000
@@ -196,6 +266,15 @@ def gen_triples(tier, seed):
         cid = 't%d' % k; k += 1
         lines.append('%s (read2 %s %s %s)' % (cid, hx(wt), hx(rt), v))
         meta[cid] = dict(W=wt, R=rt, value=v, steps=name, safety=sf)
+    for i in range(n // 8):
+        # unions of sibling named types (records with distinct fields, enums with distinct symbols, fixed of distinct
+        # sizes) whose order differs between writer and reader
+        r = rng.fork(2000000 + i)
+        wt, rt, vals, name = sibling_named_case(r)
+        for v in vals:
+            cid = 't%d' % k; k += 1
+            lines.append('%s (read2 %s %s %s)' % (cid, hx(wt), hx(rt), v))
+            meta[cid] = dict(W=wt, R=rt, value=v, steps=name, safety='safe')
     for i in range(n):
         r = rng.fork(i)
         node, _ = gen_case_schema(r, max_depth=r.choice([1, 2, 2, 3]))
